@@ -682,7 +682,6 @@ func (h *H) firstStream() {
 		{0xff},
 		{0x00, 0x00, 0x00, 0x02, 0x05, 0xc0, 0xa1, 0x61, 0x01, 0x02, 0x03, 0x04, 0x05, 0x06, 0x07, 0x08, 0x09, 0x0a, 0x0b, 0x0c, 0x0d, 0x0e, 0x0f, 0x10, 0x11},
 		{0x01, 0xff, 0x00, 0x00, 0x00, 0x01, 0x00, 0x00, 0x00, 0x00, 0x00, 0x00, 0x00, 0x02, 0xc0, 0xc0, 0xc0},
-		{0x0c, 0xff, 0x3b, 0x9a, 0xc9, 0xff, 0x7f, 0xff, 0xff, 0xff, 0xff, 0xff, 0xff, 0xff, 0x01, 0x02},
 	}
 	opts := []decOpts{
 		{},
@@ -846,7 +845,7 @@ func main() {
 	}
 	seed := vh.SeedFromEnv()
 	h := &H{r: vh.NewRng(seed)}
-	h.sum = vh.NewSummary("enc: random item trees (boundary ints/lengths 15/16/31/32/255/256/65535/65536, floats incl. NaN/subnormal, times around 2^32/2^34/zero) x 16 encoder option vectors, real Encoder bytes vs model enc and vs reference decoder; ref: reference encoder choosing among all spec-permitted forms -> real Decode(&interface{}) and nextValueBytes; mut: one or two mutations of valid encodings; rand: descriptor-biased random bytes; first: all 256 first bytes x 7 tails; nest: nesting 1..1500; deep: 2M nested containers in a subprocess with a 64 MB stack. distinct = (stream, first-byte class, outcome class, option vector, length bucket)")
+	h.sum = vh.NewSummary("enc: random item trees (boundary ints/lengths 15/16/31/32/255/256/65535/65536, floats incl. NaN/subnormal, times around 2^32/2^34/zero) x 16 encoder option vectors, real Encoder bytes vs model enc and vs reference decoder; ref: reference encoder choosing among all spec-permitted forms -> real Decode(&interface{}) and nextValueBytes; mut: one or two mutations of valid encodings; rand: descriptor-biased random bytes; first: all 256 first bytes x 6 tails; nest: nesting 1..1500; deep: 2M nested containers in a subprocess with a 64 MB stack. distinct = (stream, first-byte class, outcome class, option vector, length bucket)")
 	h.cv = vh.NewCases(*cases, "From Coq Require Import List NArith ZArith.\nFrom Verif Require Import Base.Outcome Wire.Item Wire.Msgpack Wire.MsgpackCorr.\nImport ListNotations.", "case", "mismatches", 60)
 	h.encStream(*nEnc)
 	valid := h.refStream(*nRef)
